@@ -26,6 +26,13 @@ WORDS = [('true', 'false'), ('false', 'true'), ('.min(', '.max('), ('.max(', '.m
          ('wrapping_add', 'wrapping_sub'), ('wrapping_sub', 'wrapping_add'), ('saturating_sub', 'wrapping_sub')]
 
 
+SIBLINGS = [('attack_gain', 'release_gain'), ('attack_frames', 'release_frames'), ('left', 'right'), ('bin', 'hop'), ('start', 'len'), ('first', 'len'),
+            ('slice', 'slice_mut'), ('push', 'pop'), ('signal', 'other'), ('a', 'b'), ('frames_read', 'num_frames'), ('phil', 'phir'), ('nl', 'nr'),
+            ('source_hz', 'target_hz'), ('set_playback_hz_scale', 'set_sample_hz_scale'), ('scale_playback_hz', 'scale_sample_hz'), ('in_n', 'n'), ('inputs', 'output'),
+            ('min', 'max'), ('is_empty', 'is_full'), ('add_amp', 'mul_amp'), ('offset_amp', 'scale_amp'), ('to_signed_sample', 'to_float_sample'), ('iter', 'iter_mut'),
+            ('next', 'next_back'), ('floor', 'ceil'), ('sin', 'cos'), ('MIN_REP', 'MAX_REP')]
+
+
 def anchors():
     out = {}
     for line in open(os.path.join(VERIF, 'properties.jsonl')):
@@ -74,6 +81,15 @@ def mutants_of_line(line):
         i = code.find(a)
         if i >= 0:
             yield ('word %s->%s' % (a, b), line[:i] + b + line[i + len(a):])
+    # two simple arguments of one call exchanged (they often have the same type: bin / hop, attack / release, start / len)
+    for m in re.finditer(r'\((\s*)((?:self\.)?[a-z_][\w.]*)(\s*,\s*)((?:self\.)?[a-z_][\w.]*)(\s*)\)', code):
+        if m.group(2) != m.group(4):
+            yield ('swap-args', line[:m.start()] + '(' + m.group(1) + m.group(4) + m.group(3) + m.group(2) + m.group(5) + ')' + line[m.end():])
+    # a sibling name in place of a name (same-typed fields / methods that sit next to each other)
+    for a, b in SIBLINGS:
+        for x, y in ((a, b), (b, a)):
+            for m in re.finditer(r'(?<![\w])' + re.escape(x) + r'(?![\w])', code):
+                yield ('sibling %s->%s' % (x, y), line[:m.start()] + y + line[m.end():])
     for m in re.finditer(r'(?<![\w.])(\d+)(?![\w.])', code):
         n = int(m.group(1))
         if n > 4096:
@@ -86,9 +102,50 @@ def mutants_of_line(line):
         yield ('delete-statement', line[:len(line) - len(line.lstrip())] + '// (deleted) ' + line.lstrip())
 
 
-def generate(props, per_prop, seed):
-    rnd = random.Random(seed)
+def outside_anchors(props):
+    """{property: [(file, lo, hi)]} for the library code OUTSIDE every anchored range, attributed to the property that owns
+    the enclosing function (analysis/ownership.py)"""
+    sys.path.insert(0, os.path.join(VERIF, 'analysis'))
+    import facts as F, ownership
+    fx = F.Facts('std-debug')
     anc = anchors()
+    covered = {}
+    for spans in anc.values():
+        for f, lo, hi in spans:
+            covered.setdefault(f, set()).update(range(lo, hi + 1))
+    per_file = {}
+    for path, b in fx.bodies.items():
+        if b.get('crate') not in ownership.CRATES or b['kind'] == 'Closure' or ':' not in (b.get('span') or ''):
+            continue
+        f, ln = b['span'].rsplit(':', 1)
+        per_file.setdefault(f, []).append((int(ln), path))
+    out = {}
+    for f, lst in per_file.items():
+        lst.sort()
+        full = os.path.join(REPO, f)
+        if not os.path.exists(full):
+            continue
+        n = len(open(full).read().split('\n'))
+        for i, (start, path) in enumerate(lst):
+            end = (lst[i + 1][0] - 1) if i + 1 < len(lst) else n
+            o = ownership.owner_of(path)
+            if o is None or o not in props:
+                continue
+            run = None
+            for ln in range(start, end + 1):
+                if ln in covered.get(f, ()):
+                    if run:
+                        out.setdefault(o, []).append((f, run[0], run[1])); run = None
+                else:
+                    run = (run[0], ln) if run else (ln, ln)
+            if run:
+                out.setdefault(o, []).append((f, run[0], run[1]))
+    return out
+
+
+def generate(props, per_prop, seed, outside=False):
+    rnd = random.Random(seed)
+    anc = outside_anchors(props) if outside else anchors()
     out = []
     for p in props:
         cands = []
@@ -179,8 +236,13 @@ def main():
     ap.add_argument('--out', default='/tmp/mutate.jsonl')
     ap.add_argument('--seed', type=int, default=1)
     ap.add_argument('--list', action='store_true')
+    ap.add_argument('--kinds', default='', help='comma-separated kind prefixes to keep (e.g. swap-args,sibling)')
+    ap.add_argument('--outside', action='store_true', help='mutate the library code outside the anchored ranges (attributed to the owning property)')
     a = ap.parse_args()
-    muts = generate(a.props.split(','), a.per_prop, a.seed)
+    muts = generate(a.props.split(','), a.per_prop if not a.kinds else 100000, a.seed, outside=a.outside)
+    if a.kinds:
+        ks = tuple(a.kinds.split(','))
+        muts = [m for m in muts if m['kind'].startswith(ks)]
     if a.list:
         for m in muts:
             print(m['prop'], m['file'], m['line'], m['kind'], '|', m['new'].strip()[:90])
